@@ -441,7 +441,7 @@ fn merge_op(name: &str, case: &MergeCase) -> String {
     s
 }
 
-fn write_config(out: &std::path::Path, seed: u64) {
+fn write_config(out: &std::path::Path, seed: u64, stream: &str) {
     let base = out.join("c10-sys");
     std::fs::create_dir_all(&base).unwrap();
     let t = std::fs::read_to_string("/repo/config/test.toml").unwrap();
@@ -454,8 +454,12 @@ fn write_config(out: &std::path::Path, seed: u64) {
         .replace("\"../data/schema/\"", &format!("\"{b}/schema/\""))
         .replace("\"../data/logs\"", &format!("\"{b}/logs\""))
         .replace("stdout_level = \"debug\"", "stdout_level = \"error\"")
-        .replace("event_per_zone = 1", &format!("event_per_zone = {}", [1, 2, 3, 5][(seed % 4) as usize]))
-        .replace("fill_factor = 3", "fill_factor = 80");
+        .replace("event_per_zone = 1", &format!("event_per_zone = {}", match stream {
+            "deep" => [1, 2, 1, 3][(seed % 4) as usize],
+            "rlte" => [1, 2, 3, 5, 8][(seed % 5) as usize],
+            _ => [1, 2, 3, 5][(seed % 4) as usize],
+        }))
+        .replace("fill_factor = 3", if stream == "deep" { "fill_factor = 400" } else { "fill_factor = 80" });
     let p = base.join("cfg.toml");
     std::fs::write(&p, t).unwrap();
     unsafe { std::env::set_var("SNELDB_CONFIG", &p) };
@@ -463,7 +467,7 @@ fn write_config(out: &std::path::Path, seed: u64) {
 
 fn main() {
     let a = parse_args();
-    write_config(&a.out, a.seed);
+    write_config(&a.out, a.seed, &a.stream);
     match a.stream.as_str() {
         "conv" => {
             let mut s = Stream::create(&a.out, "conv");
@@ -761,6 +765,8 @@ fn main() {
             s.finish();
         }
         "e2e" => e2e::run(&a),
+        "deep" => e2e::run_deep(&a),
+        "rlte" => rlte::run(&a),
         other => {
             eprintln!("unknown stream {other}");
             std::process::exit(2);
@@ -870,16 +876,18 @@ mod e2e {
     pub fn run(a: &snel_harness::out::Args) {
         let rt = tokio::runtime::Builder::new_multi_thread().worker_threads(4).enable_all().build().unwrap();
         let mut s = Stream::create(&a.out, "e2e");
-        let base = a.out.join("c10-sys");
+        let sys_base = a.out.join("c10-sys");
         let sys = rt.block_on(async {
             let reg = Arc::new(RwLock::new(SchemaRegistry::new().expect("registry")));
             let n = snel_db::shared::config::CONFIG.engine.shard_count;
-            let sm = Arc::new(ShardManager::new(n, base.join("cols"), base.join("wal")).await);
+            let sm = Arc::new(ShardManager::new(n, sys_base.join("cols"), sys_base.join("wal")).await);
             Sys { sm, reg }
         });
         let zone = snel_db::shared::config::CONFIG.engine.event_per_zone;
         let fill = snel_db::shared::config::CONFIG.engine.fill_factor;
         s.tally(&format!("cfg_event_per_zone_{zone}_fill_{fill}"));
+        let mut model = ModelProc::start();
+        if model.is_none() { s.tally("model_driver_missing"); }
         for i in 0..a.cases {
             if a.only.is_some_and(|o| o != i) {
                 continue;
@@ -1075,7 +1083,17 @@ mod e2e {
                 };
                 if !distinct || !from_base || resp.rows.len() != want {
                     let truth: Vec<SV> = matching.iter().map(|x| x.0.clone()).collect();
-                    let class = if *ordered && distinct { let k1 = e2e_class(c, &keys, flush_at.len()); if k1 == "-" { e2e_class(c, &truth, flush_at.len()) } else { k1 } } else { "-" };
+                    let mut class = if *ordered && distinct { let k1 = e2e_class(c, &keys, flush_at.len()); if k1 == "-" { e2e_class(c, &truth, flush_at.len()) } else { k1 } } else { "-" };
+                    if class == "-" && *ordered && distinct && limit.is_some() && !*ret_k {
+                        let got: Option<Vec<SV>> = resp.rows.iter().map(|(cell, _)| key_of_cell(c, cell)).collect();
+                        let written: Vec<(i64, SV, usize)> = rows.iter().map(|(v, k, cx)| (*k as i64, v.clone(), *cx)).collect();
+                        let pred = rt.block_on(predict(&sys, &mut model, &sys_base, &ev, "v", c, &written, !*desc, *limit, *offset, *wh, *ctx));
+                        if let (Some(p), Some(got)) = (pred, got) {
+                            if p.len() == got.len() && p.iter().zip(got.iter()).all(|(x, y)| ref_cmp(c, x, y) == Ordering::Equal) {
+                                class = "rlte-preselection-drops-zones";
+                            }
+                        }
+                    }
                     s.oracle_fail(i, class, &format!("{q}: returned {} rows (distinct={distinct} from_selection={from_base}), expected {want} of a selection of {bn}; flushes={} zone={zone} col={}", resp.rows.len(), flush_at.len(), col_name(c)));
                     continue;
                 }
@@ -1112,20 +1130,16 @@ mod e2e {
                     let mut class = e2e_class(c, &keys, flush_at.len());
                     if class == "-" { let truth: Vec<SV> = matching.iter().map(|x| x.0.clone()).collect(); class = e2e_class(c, &truth, flush_at.len()); }
                     if class == "-" && limit.is_some() {
-                        // diagnostic: the same ORDER BY with LIMIT = size of the selection makes the RLTE
-                        // planner give up (k = 10·limit exceeds every cumulative bound) → full scan
-                        let dq = q.split(" LIMIT ").next().unwrap().to_string() + &format!(" LIMIT {}", bn.max(1));
-                        if let Ok(dr) = rt.block_on(sys.cmd(&dq)) {
-                            let d = parse_rows(&dr, "v");
-                            let dk: Option<Vec<SV>> = d.rows.iter().map(|(cell, _)| key_of_cell(c, cell)).collect();
-                            if let Some(dk) = dk {
-                                let slice: Vec<&SV> = dk.iter().skip(m).take(limit.unwrap()).collect();
-                                let right = slice.len() == expect.len() && slice.iter().zip(expect.iter()).all(|(x, y)| ref_cmp(c, x, y) == Ordering::Equal);
-                                let got_sorted = got.windows(2).all(|w| { let o = ref_cmp(c, &w[0], &w[1]); if *desc { o != Ordering::Less } else { o != Ordering::Greater } });
-                                if right && got_sorted && !flush_at.is_empty() {
-                                    class = "rlte-preselection-drops-zones";
-                                }
+                        // known RLTE defect iff the faithful model of the planner, run on the ladders
+                        // that are on disk, predicts exactly this response
+                        let written: Vec<(i64, SV, usize)> = rows.iter().map(|(v, k, cx)| (*k as i64, v.clone(), *cx)).collect();
+                        let pred = rt.block_on(predict(&sys, &mut model, &sys_base, &ev, "v", c, &written, !*desc, *limit, *offset, *wh, *ctx));
+                        match pred {
+                            Some(p) if p.len() == got.len() && p.iter().zip(got.iter()).all(|(x, y)| ref_cmp(c, x, y) == Ordering::Equal) => {
+                                class = "rlte-preselection-drops-zones";
                             }
+                            Some(_) => s.tally("q_fail_not_predicted_by_rlte_model"),
+                            None => s.tally("q_fail_no_prediction"),
                         }
                     }
                     s.oracle_fail(i, class, &format!("{q}: expected keys {:?} got {:?}; flushes={} zone={zone} col={}",
@@ -1136,6 +1150,263 @@ mod e2e {
         }
         s.finish();
         std::process::exit(0); // shard tasks keep the runtime alive
+    }
+
+    /// The compiled Lean model as a line server (`drv_c10 --interactive`), used to decide whether a
+    /// failing response is the one the faithful model of the code predicts (known defect) or not.
+    pub struct ModelProc {
+        child: std::process::Child,
+        stdin: std::process::ChildStdin,
+        stdout: std::io::BufReader<std::process::ChildStdout>,
+    }
+
+    impl ModelProc {
+        pub fn start() -> Option<ModelProc> {
+            let path = std::env::var("VERIF_C10_DRIVER").unwrap_or_else(|_| "lean/.lake/build/bin/drv_c10".to_string());
+            let mut child = std::process::Command::new(path)
+                .arg("--interactive")
+                .stdin(std::process::Stdio::piped())
+                .stdout(std::process::Stdio::piped())
+                .spawn()
+                .ok()?;
+            let stdin = child.stdin.take()?;
+            let stdout = std::io::BufReader::new(child.stdout.take()?);
+            Some(ModelProc { child, stdin, stdout })
+        }
+        pub fn ask(&mut self, line: &str) -> Option<String> {
+            use std::io::{BufRead, Write};
+            writeln!(self.stdin, "{line}").ok()?;
+            self.stdin.flush().ok()?;
+            let mut out = String::new();
+            self.stdout.read_line(&mut out).ok()?;
+            Some(out.trim_end().to_string())
+        }
+    }
+
+    impl Drop for ModelProc {
+        fn drop(&mut self) {
+            let _ = self.child.kill();
+        }
+    }
+
+    /// Zones of `ev` on disk: (shard, segment label, zone id, ladder of `field`, k values of the zone).
+    pub fn zones_on_disk(base: &std::path::Path, uid: &str, field: &str) -> Vec<(usize, String, u32, Vec<String>, Vec<i64>)> {
+        use snel_db::engine::core::ColumnReader;
+        use snel_db::engine::core::zone::rlte_index::RlteIndex;
+        let mut out = vec![];
+        let n = snel_db::shared::config::CONFIG.engine.shard_count;
+        for shard in 0..n {
+            let dir = base.join("cols").join(format!("shard-{shard}"));
+            let Ok(rd) = std::fs::read_dir(&dir) else { continue };
+            let mut segs: Vec<String> = rd
+                .filter_map(|e| e.ok())
+                .filter_map(|e| e.file_name().into_string().ok())
+                .filter(|n| !n.is_empty() && n.chars().all(|c| c.is_ascii_digit()))
+                .collect();
+            segs.sort();
+            for seg in segs {
+                let sdir = dir.join(&seg);
+                let Ok(idx) = RlteIndex::load(uid, &sdir) else { continue };
+                let Some(lads) = idx.ladders.get(field) else { continue };
+                let mut zids: Vec<u32> = lads.keys().cloned().collect();
+                zids.sort();
+                for z in zids {
+                    let ks: Vec<i64> = ColumnReader::load_for_zone(&sdir, &seg, uid, "k", z)
+                        .map(|v| v.iter().filter_map(|s| s.parse::<i64>().ok()).collect())
+                        .unwrap_or_default();
+                    out.push((shard, seg.clone(), z, lads[&z].clone(), ks));
+                }
+            }
+        }
+        out
+    }
+
+    pub fn rltel_op(asc: bool, limit: Option<usize>, offset: Option<usize>, zone_size: usize, wb: Option<(&str, u64)>,
+                    zones: &[(usize, u64, u32, Vec<String>)]) -> String {
+        let o = |x: Option<usize>| x.map(|v| v.to_string()).unwrap_or("-".into());
+        let mut s = format!("rltel {} {} {} {} {} {} {}", asc as u8, o(limit), o(offset), zone_size,
+            wb.map(|w| w.0).unwrap_or("-"), wb.map(|w| w.1).unwrap_or(0), zones.len());
+        for (sh, sg, z, lad) in zones {
+            s.push_str(&format!(" {sh} {sg} {z} {}", lad.len()));
+            for l in lad {
+                s.push_str(&format!(" {}", hex(l.as_bytes())));
+            }
+        }
+        s
+    }
+
+    /// `cutoff=.. kept=a:b:c,…` → kept set; `none` → None.
+    pub fn parse_kept(line: &str) -> Option<Option<Vec<(usize, u64, u32)>>> {
+        if line == "none" {
+            return Some(None);
+        }
+        let kept = line.split(" kept=").nth(1)?;
+        let mut v = vec![];
+        for part in kept.split(',').filter(|p| !p.is_empty()) {
+            let mut it = part.split(':');
+            v.push((it.next()?.parse().ok()?, it.next()?.parse().ok()?, it.next()?.parse().ok()?));
+        }
+        Some(Some(v))
+    }
+
+    /// What the faithful model says the engine returns: memtable rows plus the rows of the zones the
+    /// (modelled) planner keeps, filtered by FOR / WHERE k >= w, sorted, sliced.
+    #[allow(clippy::too_many_arguments)]
+    pub async fn predict(sys: &Sys, model: &mut Option<ModelProc>, base: &std::path::Path, ev: &str, field: &str, c: Col,
+                         written: &[(i64, SV, usize)], asc: bool, limit: Option<usize>, offset: Option<usize>,
+                         wh: Option<i64>, ctx: Option<usize>) -> Option<Vec<SV>> {
+        let model = model.as_mut()?;
+        let uid = sys.reg.read().await.get_uid(ev)?;
+        let zones = zones_on_disk(base, &uid, field);
+        let zone_size = snel_db::shared::config::CONFIG.engine.event_per_zone;
+        let zl: Vec<(usize, u64, u32, Vec<String>)> = zones.iter().map(|z| (z.0, z.1.parse::<u64>().unwrap_or(0), z.2, z.3.clone())).collect();
+        let ans = model.ask(&rltel_op(asc, limit, offset, zone_size, None, &zl))?;
+        let kept = parse_kept(&ans)?;
+        let mut in_segments: std::collections::HashSet<i64> = std::collections::HashSet::new();
+        let mut visible: std::collections::HashSet<i64> = std::collections::HashSet::new();
+        for z in &zones {
+            let key = (z.0, z.1.parse::<u64>().unwrap_or(0), z.2);
+            let read = kept.as_ref().map_or(true, |k| k.contains(&key));
+            for k in &z.4 {
+                in_segments.insert(*k);
+                if read {
+                    visible.insert(*k);
+                }
+            }
+        }
+        let mut rows: Vec<&(i64, SV, usize)> = written
+            .iter()
+            .filter(|(k, _, cx)| (visible.contains(k) || !in_segments.contains(k)) && wh.map_or(true, |w| *k >= w) && ctx.map_or(true, |c0| *cx == c0))
+            .collect();
+        rows.sort_by(|x, y| { let o = ref_cmp(c, &x.1, &y.1); if asc { o } else { o.reverse() } });
+        Some(rows.into_iter().skip(offset.unwrap_or(0)).take(limit.unwrap_or(usize::MAX)).map(|r| r.1.clone()).collect())
+    }
+
+    /// Deep pagination over flushed data with many zones: ORDER BY v [DESC] LIMIT n OFFSET m with m
+    /// large against n (the planner sizes its pre-selection from n + m).
+    pub fn run_deep(a: &snel_harness::out::Args) {
+        let rt = tokio::runtime::Builder::new_multi_thread().worker_threads(4).enable_all().build().unwrap();
+        let mut s = Stream::create(&a.out, "deep");
+        let base = a.out.join("c10-sys");
+        let sys = rt.block_on(async {
+            let reg = Arc::new(RwLock::new(SchemaRegistry::new().expect("registry")));
+            let n = snel_db::shared::config::CONFIG.engine.shard_count;
+            let sm = Arc::new(ShardManager::new(n, base.join("cols"), base.join("wal")).await);
+            Sys { sm, reg }
+        });
+        let zone = snel_db::shared::config::CONFIG.engine.event_per_zone;
+        s.tally(&format!("cfg_event_per_zone_{zone}"));
+        let mut model = ModelProc::start();
+        if model.is_none() { s.tally("model_driver_missing"); }
+        let c = Col::Int;
+        for i in 0..a.cases {
+            if a.only.is_some_and(|o| o != i) {
+                continue;
+            }
+            let mut r = Rng::for_case(a.seed, "deep", i);
+            let ev = format!("d{}x{}", a.seed, i);
+            let n_rows = 80 + r.below(240) as usize;
+            let n_ctx = 1 + r.below(60) as usize;
+            let distinct_vals = r.chance(2, 3);
+            let mut vals: Vec<i64> = (1..=n_rows as i64).collect();
+            r.shuffle(&mut vals);
+            let rows: Vec<(i64, SV, usize)> = (0..n_rows)
+                .map(|j| {
+                    let v = if distinct_vals { vals[j] } else { r.range(-30, 30) };
+                    (j as i64 + 1, SV::Int64(v), r.below(n_ctx as u64) as usize)
+                })
+                .collect();
+            let n_mid = r.below(3) as usize;
+            let mut flush_at: Vec<usize> = (0..n_mid).map(|_| r.below(n_rows as u64) as usize).collect();
+            flush_at.sort();
+            let tail_in_memtable = if r.chance(1, 5) { r.below(20) as usize } else { 0 };
+            let queries: Vec<(bool, usize, usize)> = (0..8)
+                .map(|_| {
+                    let n = 1 + r.below(4) as usize;
+                    let m = match r.below(6) {
+                        0 => 0,
+                        1 => r.below(9 * n as u64 + 1) as usize,
+                        2 => n_rows + r.below(3) as usize,
+                        _ => 9 * n + 1 + r.below(6 * n as u64 + 2) as usize, // deeper than 9 × LIMIT
+                    };
+                    (r.chance(1, 2), n, m)
+                })
+                .collect();
+            let res: Result<Vec<(String, Resp)>, String> = rt.block_on(async {
+                let d = sys.cmd(&format!("DEFINE {ev} FIELDS {{ k: \"int\", v: \"int\" }}")).await?;
+                if !d.contains("200") && !d.to_lowercase().contains("ok") {
+                    return Err(format!("define failed: {d}"));
+                }
+                let mut fi = 0;
+                let flushed_upto = n_rows - tail_in_memtable;
+                for (j, (k, v, ctx)) in rows.iter().enumerate() {
+                    while fi < flush_at.len() && flush_at[fi] == j {
+                        wait_visible(&sys, &ev, j).await?;
+                        sys.cmd("FLUSH").await?;
+                        fi += 1;
+                    }
+                    if j == flushed_upto {
+                        wait_visible(&sys, &ev, j).await?;
+                        sys.cmd("FLUSH").await?;
+                    }
+                    let SV::Int64(vv) = v else { unreachable!() };
+                    let payload = serde_json::json!({"k": k, "v": vv});
+                    let resp = sys.cmd(&format!("STORE {ev} FOR c{ctx} PAYLOAD {payload}")).await?;
+                    if !resp.contains("200") {
+                        return Err(format!("store rejected: {payload} -> {resp}"));
+                    }
+                }
+                wait_visible(&sys, &ev, rows.len()).await?;
+                if tail_in_memtable == 0 {
+                    sys.cmd("FLUSH").await?;
+                }
+                wait_visible(&sys, &ev, rows.len()).await?;
+                let mut out = vec![];
+                for (desc, n, m) in &queries {
+                    let q = format!("QUERY {ev} RETURN [v] ORDER BY v {} LIMIT {n} OFFSET {m}", if *desc { "DESC" } else { "ASC" });
+                    let resp = sys.cmd(&q).await?;
+                    out.push((q, parse_rows(&resp, "v")));
+                }
+                Ok(out)
+            });
+            s.tally_n("events", n_rows as u64);
+            s.tally(&format!("mid_flushes_{}", flush_at.len()));
+            if tail_in_memtable > 0 { s.tally("tail_in_memtable"); }
+            let answers = match res {
+                Ok(x) => x,
+                Err(_) => {
+                    s.tally("session_skipped");
+                    s.case(&format!("deep {i}"), "session-skipped", false);
+                    continue;
+                }
+            };
+            let mut summary = vec![];
+            for ((desc, n, m), (q, resp)) in queries.iter().zip(answers.iter()) {
+                summary.push(format!("{}:{}", resp.status, resp.rows.len()));
+                s.tally(if *m > 9 * *n { "q_offset_gt_9x_limit" } else { "q_offset_le_9x_limit" });
+                let mut reference: Vec<&SV> = rows.iter().map(|x| &x.1).collect();
+                reference.sort_by(|x, y| { let o = ref_cmp(c, x, y); if *desc { o.reverse() } else { o } });
+                let expect: Vec<&SV> = reference.iter().skip(*m).take(*n).cloned().collect();
+                let got: Option<Vec<SV>> = resp.rows.iter().map(|(cell, _)| key_of_cell(c, cell)).collect();
+                let got = got.unwrap_or_default();
+                let ok = resp.status == 200 && expect.len() == got.len() && expect.iter().zip(got.iter()).all(|(e, g)| ref_cmp(c, e, g) == Ordering::Equal);
+                if ok {
+                    s.oracle_ok();
+                    continue;
+                }
+                let pred = rt.block_on(predict(&sys, &mut model, &base, &ev, "v", c, &rows, !*desc, Some(*n), Some(*m), None, None));
+                let class = match &pred {
+                    Some(p) if resp.status == 200 && p.len() == got.len() && p.iter().zip(got.iter()).all(|(x, y)| ref_cmp(c, x, y) == Ordering::Equal) => "rlte-preselection-drops-zones",
+                    _ => "-",
+                };
+                s.oracle_fail(i, class, &format!("{q}: status {} expected keys {:?} got {:?}, faithful model predicts {:?}; events={n_rows} zone={zone} mid_flushes={} tail_in_memtable={tail_in_memtable}",
+                    resp.status, expect.iter().map(|x| tok(x)).collect::<Vec<_>>(), got.iter().map(tok).collect::<Vec<_>>(),
+                    pred.map(|p| p.iter().map(tok).collect::<Vec<_>>()), flush_at.len()));
+            }
+            s.case(&format!("deep {i}"), &summary.join(" "), true);
+        }
+        s.finish();
+        std::process::exit(0);
     }
 
     fn e2e_class(c: Col, keys: &[SV], _flushes: usize) -> &'static str {
@@ -1157,5 +1428,196 @@ mod e2e {
             tokio::time::sleep(std::time::Duration::from_millis(5)).await;
         }
         Err(format!("stored events did not become visible ({n})"))
+    }
+}
+
+// ------------------------------------------------------------------ RLTE planner, component level
+mod rlte {
+    use super::e2e::{parse_kept, rltel_op, ModelProc, Sys};
+    use super::*;
+    use snel_db::command::parser::parse_command;
+    use snel_db::engine::core::read::catalog::{IndexKind, SegmentIndexCatalog};
+    use snel_db::engine::core::zone::rlte_index::RlteIndex;
+    use snel_db::engine::core::zone::zone_plan::ZonePlan;
+    use snel_db::engine::core::{Event, QueryPlan};
+    use snel_db::engine::query::rlte_planner::plan_with_rlte;
+    use snel_db::engine::schema::SchemaRegistry;
+    use snel_db::engine::shard::manager::ShardManager;
+    use std::collections::HashMap;
+    use tokio::sync::RwLock;
+
+    fn gen_val(r: &mut Rng, kind: u64) -> SV {
+        match kind {
+            0 => SV::Int64(r.range(-15, 40)),
+            1 => SV::Int64(match r.below(8) { 0 => i64::MAX - r.below(3) as i64, 1 => i64::MIN + r.below(3) as i64, _ => r.range(-1000, 1000) }),
+            2 => {
+                let n = 1 + r.below(3);
+                SV::Utf8((0..n).map(|_| (b'a' + r.below(5) as u8) as char).collect())
+            }
+            3 => SV::Utf8(r.below(120).to_string()), // number-looking strings: numeric ladders in a string field
+            _ => {
+                if r.chance(1, 2) { SV::Utf8(r.below(30).to_string()) } else { SV::Utf8(r.pick(&["a", "b", "zz", "", "10x"]).to_string()) }
+            }
+        }
+    }
+
+    pub fn run(a: &snel_harness::out::Args) {
+        let rt = tokio::runtime::Builder::new_multi_thread().worker_threads(2).enable_all().build().unwrap();
+        let mut s = Stream::create(&a.out, "rlte");
+        let base = a.out.join("c10-sys");
+        let sys = rt.block_on(async {
+            let reg = Arc::new(RwLock::new(SchemaRegistry::new().expect("registry")));
+            let n = snel_db::shared::config::CONFIG.engine.shard_count;
+            let sm = Arc::new(ShardManager::new(n, base.join("cols"), base.join("wal")).await);
+            Sys { sm, reg }
+        });
+        let zone_size = snel_db::shared::config::CONFIG.engine.event_per_zone;
+        s.tally(&format!("cfg_event_per_zone_{zone_size}"));
+        let uid = rt.block_on(async {
+            let d = sys.cmd("DEFINE r FIELDS { k: \"int\", v: \"int\", s: \"string\" }").await.unwrap();
+            assert!(d.contains("200") || d.to_lowercase().contains("ok"), "{d}");
+            sys.reg.read().await.get_uid("r").unwrap()
+        });
+        let mut model = ModelProc::start();
+        if model.is_none() { s.tally("model_driver_missing"); }
+        for i in 0..a.cases {
+            if a.only.is_some_and(|o| o != i) {
+                continue;
+            }
+            let mut r = Rng::for_case(a.seed, "rlte", i);
+            let kind = r.below(5);
+            let field = if kind < 2 { "v" } else { "s" };
+            let col = if kind < 2 { Col::Int } else { Col::PlainStr };
+            let n_shards = 1 + r.below(3) as usize;
+            let case_dir = a.out.join("rlte-cases").join(format!("{i}"));
+            let mut bases: HashMap<usize, std::path::PathBuf> = HashMap::new();
+            let mut segs: HashMap<usize, Vec<String>> = HashMap::new();
+            // (shard, seg, zone, values of the zone)
+            let mut zones: Vec<(usize, u64, u32, Vec<SV>)> = vec![];
+            let mut ladders: Vec<(usize, u64, u32, Vec<String>)> = vec![];
+            let mut kk = 0i64;
+            let many = r.chance(1, 2);
+            for sh in 0..n_shards {
+                let sdir = case_dir.join(format!("shard-{sh}"));
+                bases.insert(sh, sdir.clone());
+                let n_segs = 1 + r.below(2) as usize;
+                let mut labels = vec![];
+                for sg in 0..n_segs {
+                    let label = format!("{:05}", sg + 1);
+                    let n_ev = 1 + r.below(if many { zone_size as u64 * 25 } else { zone_size as u64 * 4 }) as usize;
+                    let events: Vec<Event> = (0..n_ev)
+                        .map(|_| {
+                            kk += 1;
+                            let v = gen_val(&mut r, kind);
+                            let mut payload = serde_json::Map::new();
+                            payload.insert("k".into(), serde_json::json!(kk));
+                            match &v {
+                                SV::Int64(x) => { payload.insert("v".into(), serde_json::json!(x)); payload.insert("s".into(), serde_json::json!("x")); }
+                                SV::Utf8(x) => { payload.insert("v".into(), serde_json::json!(0)); payload.insert("s".into(), serde_json::json!(x)); }
+                                _ => unreachable!(),
+                            }
+                            serde_json::from_value::<Event>(serde_json::json!({"event_type": "r", "context_id": "c", "timestamp": 1u64, "payload": payload})).unwrap()
+                        })
+                        .collect();
+                    let plans = ZonePlan::build_all(&events, zone_size, uid.clone(), (sg + 1) as u64).unwrap();
+                    let idx = RlteIndex::build_from_zones(&plans);
+                    let dir = sdir.join(&label);
+                    std::fs::create_dir_all(&dir).unwrap();
+                    idx.save(&uid, &dir).unwrap();
+                    let mut cat = SegmentIndexCatalog::new(uid.clone(), label.clone());
+                    cat.add_global_kind(IndexKind::RLTE);
+                    cat.save(&dir.join(format!("{uid}.icx"))).unwrap();
+                    for zp in &plans {
+                        let vals: Vec<SV> = zp.events.iter().map(|e| e.payload.get(field).cloned().unwrap()).collect();
+                        let lad = idx.ladders.get(field).and_then(|m| m.get(&zp.id)).cloned().unwrap_or_default();
+                        // ladder construction: real vs model (one line per zone)
+                        if r.chance(1, 4) {
+                            let op = format!("ladder {}", vals.iter().map(tok).collect::<Vec<_>>().join(" "));
+                            let imp = lad.iter().map(|l| hex(l.as_bytes())).collect::<Vec<_>>().join(" ");
+                            s.case(&op, &imp, vals.len() > 1);
+                        }
+                        zones.push((sh, (sg + 1) as u64, zp.id, vals));
+                        ladders.push((sh, (sg + 1) as u64, zp.id, lad));
+                    }
+                    labels.push(label);
+                }
+                segs.insert(sh, labels);
+            }
+            let asc = r.chance(1, 2);
+            let total: usize = zones.iter().map(|z| z.3.len()).sum();
+            let limit = match r.below(8) { 0 => None, 1 => Some(0), _ => Some(1 + r.below(4) as usize) };
+            let offset = match r.below(5) { 0 => None, 1 => Some(0), 2 => Some(r.below(total as u64 / 8 + 2) as usize), _ => Some(r.below(12) as usize) };
+            // WHERE on the ORDER BY field (numeric literal) → WhereBound; on another field → none
+            let wb: Option<(&str, &str, u64)> = if field == "v" && r.chance(1, 4) {
+                let (name, sym) = *r.pick(&[("lt", "<"), ("lte", "<="), ("gt", ">"), ("gte", ">=")]);
+                Some((name, sym, r.below(40)))
+            } else { None };
+            let mut q = "QUERY r RETURN [v]".to_string();
+            if let Some((_, sym, x)) = wb { q.push_str(&format!(" WHERE v {sym} {x}")); }
+            else if r.chance(1, 6) { q.push_str(" WHERE k >= 0"); }
+            q.push_str(&format!(" ORDER BY {field} {}", if asc { "ASC" } else { "DESC" }));
+            if let Some(l) = limit { q.push_str(&format!(" LIMIT {l}")); }
+            if let (Some(o), Some(_)) = (offset, limit) { q.push_str(&format!(" OFFSET {o}")); }
+            let offset = if limit.is_some() { offset } else { None };
+            let real = rt.block_on(async {
+                let cmd = parse_command(&q).map_err(|e| format!("{e:?}"))?;
+                let plan = QueryPlan::build(&cmd, Arc::clone(&sys.reg)).await;
+                Ok::<_, String>(plan_with_rlte(&plan, &bases, &segs).await)
+            });
+            let real = match real {
+                Ok(x) => x,
+                Err(e) => { s.case(&format!("rltel-parse-error {i}"), &e, false); continue; }
+            };
+            let imp = match &real {
+                None => "none".to_string(),
+                Some(out) => {
+                    let mut kept: Vec<(usize, u64, u32)> = vec![];
+                    let mut cutoff = String::new();
+                    for (sh, pz) in &out.per_shard {
+                        cutoff = pz.cutoff.clone();
+                        for (sg, z) in &pz.zones {
+                            kept.push((*sh, sg.parse::<u64>().unwrap(), *z));
+                        }
+                    }
+                    kept.sort();
+                    format!("cutoff={} kept={}", hex(cutoff.as_bytes()), kept.iter().map(|k| format!("{}:{}:{}", k.0, k.1, k.2)).collect::<Vec<_>>().join(","))
+                }
+            };
+            ladders.sort_by_key(|z| (z.0, z.1, z.2));
+            let op = rltel_op(asc, limit, offset, zone_size, wb.map(|w| (w.0, w.2)), &ladders);
+            s.tally(if real.is_some() { "planned" } else { "no_plan" });
+            s.tally(if field == "v" { "field_int" } else { "field_string" });
+            if wb.is_some() { s.tally("where_bound"); }
+            s.tally_n("zones", zones.len() as u64);
+            s.case(&op, &imp, real.is_some());
+            // oracle: the kept zones hold the slice m..m+n of the matching rows
+            let Some(kept) = parse_kept(&imp).flatten() else { s.oracle_ok(); continue };
+            let matches = |v: &SV| -> bool {
+                match (wb, v) {
+                    (Some((name, _, x)), SV::Int64(val)) => match name { "lt" => *val < x as i64, "lte" => *val <= x as i64, "gt" => *val > x as i64, _ => *val >= x as i64 },
+                    _ => true,
+                }
+            };
+            let cmpf = |x: &SV, y: &SV| { let o = ref_cmp(col, x, y); if asc { o } else { o.reverse() } };
+            let mut all: Vec<&SV> = zones.iter().flat_map(|z| z.3.iter()).filter(|v| matches(v)).collect();
+            let mut vis: Vec<&SV> = zones.iter().filter(|z| kept.contains(&(z.0, z.1, z.2))).flat_map(|z| z.3.iter()).filter(|v| matches(v)).collect();
+            all.sort_by(|x, y| cmpf(x, y));
+            vis.sort_by(|x, y| cmpf(x, y));
+            let m = offset.unwrap_or(0);
+            let n = limit.unwrap_or(usize::MAX);
+            let e: Vec<&&SV> = all.iter().skip(m).take(n).collect();
+            let g: Vec<&&SV> = vis.iter().skip(m).take(n).collect();
+            if e.len() == g.len() && e.iter().zip(g.iter()).all(|(x, y)| ref_cmp(col, x, y) == Ordering::Equal) {
+                s.oracle_ok();
+            } else {
+                let class = match model.as_mut().and_then(|mp| mp.ask(&op)) {
+                    Some(ans) if ans == imp => "rlte-preselection-drops-zones",
+                    _ => "-",
+                };
+                s.oracle_fail(i, class, &format!("{q} zone_size={zone_size}: kept zones give {:?}, all zones give {:?}", g.iter().map(|x| tok(x)).collect::<Vec<_>>(), e.iter().map(|x| tok(x)).collect::<Vec<_>>()));
+            }
+        }
+        s.finish();
+        std::process::exit(0);
     }
 }
